@@ -222,6 +222,15 @@ impl RtpHeader {
                 break;
             }
 
+            if offset + len > ext.data.len() {
+                // Element received from the wire runs past the extension block:
+                // leave the header as it was instead of slicing out of bounds.
+                self.extension = Some(ext);
+                return Err(RtpError::InvalidHeader(
+                    "malformed one-byte header extension element",
+                ));
+            }
+
             if ext_id == id {
                 found = true;
                 new_data.push(id_header);
